@@ -218,7 +218,31 @@ pub fn run_checksum(req: &Value) -> Value {
     algs.sort();
     let mut items: Vec<(String, String)> = c.iter().map(|(k, v)| (hx(k), hx(v.raw()))).collect();
     items.sort();
-    json!({"rets": rets, "algorithms": algs, "items": items, "text": checksum_text(c)})
+    // the text form parsed back, and every entry decoded: for the concrete re-evaluation of C12 on a counterexample
+    let decoded: Vec<Value> = items
+        .iter()
+        .map(|(k, _)| match c.get::<Vec<u8>>(&unhex(&json!(k))) {
+            Ok(Some(v)) => json!([k, hex::encode(v)]),
+            Ok(None) => json!([k, Value::Null]),
+            Err(_) => json!([k, "err"]),
+        })
+        .collect();
+    let text = checksum_text(c);
+    let back = match text.get("ok") {
+        Some(t) => {
+            let t = unhex(t);
+            match Checksum::try_from(t.as_str()) {
+                Ok(c2) => {
+                    let mut it: Vec<(String, String)> = c2.iter().map(|(k, v)| (hx(k), hx(v.raw()))).collect();
+                    it.sort();
+                    json!({"ok": it})
+                },
+                Err(e) => json!({"err": parse_err_name(&e)}),
+            }
+        },
+        None => Value::Null,
+    };
+    json!({"rets": rets, "algorithms": algs, "items": items, "text": text, "back": back, "decoded": decoded})
 }
 
 #[cfg(feature = "pt")]
